@@ -144,6 +144,37 @@ def judge_family(fam, w):
     return None
 
 
+def judge_sample_callstack(w, shape):
+    nframes = 0 if shape == 'no-frames' else 2
+    evs = [E.ev('PERF_Event', 1, (0x8, 7, 0, 0)), E.ev('PERF_STK_UHdr', 0, (w, nframes, 0, 0))]
+    if shape == 'frames':
+        evs.append(E.ev('PERF_STK_UData', 0, (0x10, 0x20, 0, 0)))
+    evs.append(E.ev('PERF_Event', 2, (0, 0, 0, 0)))
+    try:
+        out = [t for t in TracesParser(E.codes(), {}, {}).feed_generator(E.restamp(evs)) if type(t).__name__ == 'PerfEvent' and t.ktraces[0].func_qualifier == 1]
+        if len(out) != 1:
+            return ('sample-count', {'n': len(out)})
+        flags = out[0].cs_flags
+        if flags is None:
+            shown = None
+        else:
+            shown = {getattr(f, 'name', str(f)) for f in flags}
+    except Exception as ex:
+        return ('raised:' + type(ex).__name__, {'error': repr(ex)[:200]})
+    table = DW.CALLSTACK
+    dec = declared('perf.CallstackFlag')
+    want = {n for n in dec if n in table and table[n] and (table[n] & w) == table[n]}
+    if shown is None:
+        if want:
+            return ('declared-set-bit-not-shown', {'word': hex(w), 'sample_cs_flags': None, 'expected': sorted(want)})
+        return None
+    for n in shown - want:
+        return ('name-shown-for-bit-not-set' if n in table else 'name-not-a-darwin-constant', {'name': n, 'word': hex(w)})
+    for n in want - shown:
+        return ('declared-set-bit-not-shown', {'name': n, 'word': hex(w), 'shown': sorted(shown)})
+    return None
+
+
 def judge_open(site, w):
     decoder, idx = OPEN_SITES[site]
     s = list(BASE_S)
@@ -252,7 +283,7 @@ def judge_ioctl(w):
 class C11(Check):
     pid = 'C11'
     level = 'exploration'
-    rule = ('per symbolic family, through a decoder that shows it: every subset of the declared bits plus two undeclared bits '
+    rule = ('per symbolic family, through a decoder that shows it: every subset of the declared bits plus two undeclared bits (the callstack family also as the state word of the SAMPLE that owns the header, header announcing 0 frames / 2 frames / 2 frames whose data was lost) '
             '(MSG_ and AST_: Hamming balls of radius 3 around 0 and around all-bits in quick, the full 2^22 / 2^24 in thorough); '
             'open flags (3 call sites; 7 further sites from the frozen site table with Hamming balls of radius 2): every subset of 12 flag bits + 2 access-mode bits + 2 undeclared; file modes (3 call '
             'sites; 5 further sites likewise): every subset of the 12 permission bits x all 16 values of the S_IFMT field x 1 undeclared bit; packed fields '
@@ -290,6 +321,7 @@ class C11(Check):
             for t in range(16):
                 out.append(('stat', site, t))
         out.append(('vmprot-pairs',))
+        out.append(('sample-callstack',))
         for k in range(4):
             out.append(('ioctl', 'hi', k))
         for k in range(8):
@@ -346,6 +378,16 @@ class C11(Check):
                     acc.case(nontrivial=True, transitions=6)
                     if bad:
                         acc.violation(f'{bad[0]}@VM_PROT@vmfault-pairs', {'kind': 'vmprot-pairs', 'prot': p1, 'second': list(second), 'first_kind': first_kind}, bad[1])
+        elif kind == 'sample-callstack':
+            # the callstack state word of a SAMPLE (PerfEvent.cs_flags) is its stack header's word: every subset of the declared bits + 2
+            # undeclared x header announcing 0 frames / 2 frames with their data record / 2 frames whose data record was lost
+            bits, und = family_bits('CALLSTACK')
+            for w in bit_subsets(bits + und):
+                for shape in ('no-frames', 'frames', 'frames-lost'):
+                    bad = judge_sample_callstack(w, shape)
+                    acc.case(nontrivial=bin(w).count('1') >= 2, transitions=4, outcome=h64(('scs', w, shape)) if w < 64 else None)
+                    if bad:
+                        acc.violation(f'{bad[0]}@CALLSTACK@sample', {'kind': 'sample-callstack', 'word': hex(w), 'shape': shape}, bad[1])
         elif kind == 'open':
             _, site, mode = desc
             dec = declared('bsd.BscOpenFlags')
@@ -390,6 +432,9 @@ class C11(Check):
             acc = Acc()
             self.run_shard(('vmprot-pairs',), acc)
             return [(sig, v['cases'][0][1]) for sig, v in acc.violations.items()]
+        if k == 'sample-callstack':
+            bad = judge_sample_callstack(int(case['word'], 16), case['shape'])
+            return [(f"{bad[0]}@CALLSTACK@sample", bad[1])] if bad else []
         if k == 'fam':
             bad = judge_family(case['family'], int(case['word'], 16))
             return [(f"{bad[0]}@{case['family']}", bad[1])] if bad else []
